@@ -1,11 +1,100 @@
-//! C01 — not built yet.
+//! C01 — build-then-enumerate round trip, through every front end and cache geometry.
 use crate::common::*;
+use crate::core::*;
+
 pub struct P;
-impl Prop for P {
-    fn generate(&self, _tier: Tier, _rng: &mut Rng, _stats: &mut Stats) -> Vec<String> {
-        vec![]
+
+pub const GEOMETRIES: [(usize, usize); 7] = [(10_000, 2), (1, 1), (1, 2), (2, 2), (3, 3), (0, 0), (7, 4)];
+
+pub fn push_all_front_ends(cases: &mut Vec<String>, stats: &mut Stats, ops: &[Op], ty: u64, geoms: &[(usize, usize)]) {
+    for &(rows, cols) in geoms {
+        let default = (rows, cols) == (10_000, 2);
+        for (sem, fe) in applicable_front_ends(ops, default, ty) {
+            // `calls` differs from `extend` only in how results are observed; keep one raw variant per geometry
+            if !default && !(fe == "raw_loop" || fe == "raw") {
+                continue;
+            }
+            cases.push(build_case(sem, fe, ty, rows, cols, ops));
+            stats.bump(&format!("fe_{}_{}", sem, fe));
+        }
+        stats.bump(&format!("geometry_{}x{}", rows, cols));
     }
-    fn execute(&self, _case: &str) -> String {
-        String::new()
+}
+
+impl Prop for P {
+    fn generate(&self, tier: Tier, rng: &mut Rng, stats: &mut Stats) -> Vec<String> {
+        let mut cases = vec![];
+        // 1. exhaustive small scope: all subsets of the 7 strings over {a,b} of length <= 2, two more alphabets
+        for alpha in [&[b'a', b'b'][..], &[0x00, 0xFF][..], &[b'a', 0xFF][..]] {
+            let u = universe(alpha, 2);
+            for ks in subsets(&u) {
+                let pats: Vec<usize> = if tier == Tier::Quick { vec![0, 1, 2, 4] } else { (0..NPATTERNS).collect() };
+                // sets through every front end, default geometry + small geometries
+                let geoms: &[(usize, usize)] = if alpha[0] == b'a' && alpha[1] == b'b' { &GEOMETRIES } else { &GEOMETRIES[..2] };
+                push_all_front_ends(&mut cases, stats, &set_ops(&ks), 0, geoms);
+                for p in pats {
+                    let vals = value_pattern(p, ks.len(), rng);
+                    let g: &[(usize, usize)] = if p == 1 { geoms } else { &GEOMETRIES[..1] };
+                    push_all_front_ends(&mut cases, stats, &map_ops(&with_values(&ks, &vals)), 0, g);
+                }
+                stats.bump("small_scope_keysets");
+            }
+        }
+        // 2. boundary-directed families
+        for (name, ks) in boundary_keysets(rng, tier) {
+            let big = ks.len() > 64 || ks.iter().any(|k| k.len() > 64);
+            let geoms: &[(usize, usize)] = if big { &GEOMETRIES[..2] } else { &GEOMETRIES[..5] };
+            push_all_front_ends(&mut cases, stats, &set_ops(&ks), 0, geoms);
+            for p in [1usize, 2, 4, 8] {
+                let vals = value_pattern(p, ks.len(), rng);
+                push_all_front_ends(&mut cases, stats, &map_ops(&with_values(&ks, &vals)), if p == 4 { 7 } else { 0 }, &geoms[..1]);
+            }
+            stats.bump(&format!("boundary_{}", name.split('_').next().unwrap()));
+        }
+        // 3. random
+        let nrand = match tier { Tier::Quick => 150, Tier::Thorough => 3000, Tier::Wide => 600 };
+        for _ in 0..nrand {
+            let maxk = if rng.chance(1, 10) { 300 } else { 30 };
+            let ks = random_keyset(rng, maxk, 8);
+            let p = rng.below(NPATTERNS as u64) as usize;
+            let vals = value_pattern(p, ks.len(), rng);
+            let g = [*rng.pick(&GEOMETRIES)];
+            let ty = if rng.chance(1, 5) { rng.next() } else { 0 };
+            if p == 0 {
+                push_all_front_ends(&mut cases, stats, &set_ops(&ks), ty, &g);
+            } else {
+                push_all_front_ends(&mut cases, stats, &map_ops(&with_values(&ks, &vals)), ty, &g);
+            }
+            stats.bump("random_keysets");
+        }
+        // 4. sets with repeated keys (a repeat is a no-op; len counts distinct keys)
+        for _ in 0..(nrand / 3) {
+            let ks = random_keyset(rng, 12, 4);
+            let mut ops = vec![];
+            for k in &ks {
+                for _ in 0..rng.range(1, 3) {
+                    ops.push(Op::Add(k.clone()));
+                }
+            }
+            push_all_front_ends(&mut cases, stats, &ops, 0, &[*rng.pick(&GEOMETRIES)]);
+            stats.bump("sets_with_repeats");
+        }
+        // 5. corpora (thorough): model side is slow on these, keep them few
+        if tier == Tier::Thorough {
+            for (f, n) in [("words-10000", 3000usize), ("wiki-urls-10000", 1500)] {
+                let ks = corpus(f, n);
+                cases.push(build_case("extend", "raw_loop", 0, 10_000, 2, &set_ops(&ks)));
+                stats.bump("corpus_builds");
+            }
+        }
+        cases
+    }
+
+    fn nontrivial(&self, case: &str) -> bool {
+        case.matches(',').count() >= 1
+    }
+
+    fn execute(&self, case: &str) -> String {
+        exec_build_case(&case["build ".len()..])
     }
 }
